@@ -598,6 +598,10 @@ def run(ctx, crate):
     # loses cells: seed C13l)
     from .c12 import rule_trunc_keeps_width
     rule_trunc_keeps_width(ctx, crate)
+    # "wide_bar makes the line exactly as wide as the terminal, never wider": the bar is spliced in at the marker only - every other
+    # text of the line has the marker character removed before it is appended (seed C13m: only after the wide element was seen)
+    from .c11 import rule_marker_out_of_band
+    rule_marker_out_of_band(ctx, crate)
 
     # ---- R-WIDE-BAR-WIDTH ---------------------------------------------------------------------------------
     rule = "R-WIDE-BAR-WIDTH"
